@@ -276,6 +276,28 @@ def run(ck):
                        "file - nothing dropped, repeated or merged while reading (as C17.9)")
     from .c17 import frame_integrity
     frame_integrity(ck, "C20.7", modules=("src.parsers.cmap_reader", "src.parsers.bionano_file_reader", "sv.read_files"))
+    ck.clause("C20.8", "reference maps and query maps are kept in separate tables: `a = b = {}` binds both names to ONE dictionary - a "
+                       "molecule whose id equals a reference id replaces that reference, and label numbers are looked up in the wrong map")
+    n_ch = 0
+    for f0 in [f for f in p.nontest_functions() if f.module.name.startswith("sv.") and not f.is_lambda]:
+        for node in ast.walk(f0.node):
+            if isinstance(node, ast.Assign):
+                n_ch += 1
+                names = [t.id for t in node.targets if isinstance(t, ast.Name)]
+                mutable = isinstance(node.value, (ast.Dict, ast.List, ast.Set)) or (
+                    isinstance(node.value, ast.Call) and ast.unparse(node.value.func).split(".")[-1] in ("dict", "list", "set", "defaultdict"))
+                if len(names) >= 2 and mutable:
+                    written = [nm for nm in names if any(
+                        (isinstance(x, ast.Subscript) and isinstance(x.ctx, ast.Store) and isinstance(x.value, ast.Name) and x.value.id == nm) or
+                        (isinstance(x, ast.Call) and isinstance(x.func, ast.Attribute) and isinstance(x.func.value, ast.Name) and
+                         x.func.value.id == nm and x.func.attr in ("append", "update", "setdefault", "add", "extend"))
+                        for x in ast.walk(f0.node))]
+                    if len(written) >= 2:
+                        ck.violation("C20.8", short(f0) + ":aliased:" + "=".join(names), where(f0, node),
+                                     f"{' and '.join(names)} are one object (chained assignment of a mutable value) and both are filled: "
+                                     "entries with equal keys overwrite each other", found=ast.unparse(node)[:100],
+                                     required="one display per name")
+    ck.floor("C20.8 assignments scanned in sv/", n_ch, 60)
     ck.clause("C20.6", "label look-ups of the finders keep no state: nothing at module level is written while calls are produced "
                        "(a cache shared by reference and query maps answers one with the other's position)")
     from ..report import RuleView
